@@ -600,7 +600,7 @@ package jen
 //@   modifies *s, tail(*s)
 //@   ensures [C14,C20] self: result == s
 //@   ensures [C14,C20] appended: len(*s) == old(len(*s)) + 1 && (forall j int :: { (*s)[j] } (0 <= j && j < old(len(*s))) ==> (*s)[j] == old((*s)[j]))
-//@   ensures [C14,C15] item: is_C_comment((*s)[old(len(*s))])
+//@   ensures [C14,C15] item: (*s)[old(len(*s))] == C_comment(mk_comment(fmtDyn(format, cells(a), len(a))))
 //@   ensures [C20] backing: len(*s) <= cap(*s) && (old(len(*s)) + 1 <= old(cap(*s)) ? (*s).arr == old((*s).arr) && cap(*s) == old(cap(*s)) : fresh((*s).arr))
 //@   ensures [C02] unfold(treeOK) tree: treeOK()
 
